@@ -581,7 +581,7 @@ theorem visitNodes_bkA (ctx : Ctx) (hnf : ctx.isFunction = false) (vg : St → G
             simp only []
             generalize hE : evalPartial n v st0 = e at hbk2 ⊢
             obtain ⟨r1, st2⟩ := e
-            rcases hes st0 v with ⟨hr, hsym⟩ | ⟨x, opn, attrs, hr, hxin, hsym, hkind⟩
+            rcases (hes st0 v).2 with ⟨hr, hsym⟩ | ⟨x, opn, attrs, hr, hxin, hsym, hkind⟩
             · rw [hE] at hr hsym
               simp only [] at hr hsym hbk2
               subst hr
@@ -606,7 +606,7 @@ theorem visitNodes_bkA (ctx : Ctx) (hnf : ctx.isFunction = false) (vg : St → G
               have hfr' : ∀ k ∈ mkNode opn [some x] [o] attrs :: rest, FragBk k := by
                 intro k hk
                 rcases List.mem_cons.mp hk with rfl | hk'
-                · rcases hkind with ⟨rfl, rfl⟩ | ⟨rfl, t, rfl⟩
+                · rcases hkind with ⟨rfl, rfl, _⟩ | ⟨rfl, ⟨t, rfl⟩, _, _⟩
                   · exact ⟨rfl, rfl, Or.inr (Or.inr (Or.inl ⟨rfl, rfl, x, o, rfl, rfl⟩))⟩
                   · exact ⟨rfl, rfl, Or.inr (Or.inr (Or.inr (clsX_cast _ x o rfl rfl rfl)))⟩
                 · exact hfrrest k hk'
